@@ -225,6 +225,17 @@ func main() {
 			if len(m.FHDR.FOpts) == 0 {
 				m.FHDR.FOpts = make([]lorawan.Payload, 0, r.Intn(4))
 			}
+			// elements of a type the library does not define (lorawan.Payload is an open interface)
+			for k, e := range m.FRMPayload {
+				if dp, ok := e.(*lorawan.DataPayload); ok && r.Bool() {
+					m.FRMPayload[k] = &framefmt.Opaque{B: dp.Bytes}
+				}
+			}
+			for k, e := range m.FHDR.FOpts {
+				if dp, ok := e.(*lorawan.DataPayload); ok && r.Bool() {
+					m.FHDR.FOpts[k] = &framefmt.Opaque{B: dp.Bytes}
+				}
+			}
 			if len(m.FRMPayload) == 0 && r.Bool() {
 				m.FRMPayload = []lorawan.Payload{}
 			}
